@@ -110,7 +110,7 @@ Silent(t) ==
       [] t = "doq"            -> {Drop, Close, QUICProto}
       [] t = "dnscrypt-udp"   -> {Drop}
       [] t = "dnscrypt-tcp"   -> {Drop, Close}
-      [] OTHER                -> {None}
+      [] OTHER                -> {None, Escaped}   \* lane "base" (ServerBase.serveDNS): recovering is the caller's job
 
 RejectReasons(c) ==
     (IF c.op = "OTHER" THEN {"NOTIMP"} ELSE {}) \cup
